@@ -495,7 +495,7 @@ def _compare_reorder(r, label, data, rnd, perms, n_random, extra=_extra_observab
                     bad = sorted(k for k in set(a) | set(b) if a.get(k) != b.get(k))[:4]
                     # HVAR / VVAR without an advance DeltaSetIndexMap address their deltas by glyph ID
                     # (HarfBuzz derives the vertical origin from the advances when the font has none)
-                    kid = "C17-reorder-hvar-implicit-map" if loc and (what in implicit_var or (what == "v_origin" and implicit_var)) else None
+                    kid = None
                     fails.append(("%s at %s differs by name after reordering, e.g. %r" % (what, loc or "default", bad), kid))
         _, hb1 = _hb(data1)
         for (script, lang, direction, fp, t), want in shaped0.items():
@@ -517,13 +517,6 @@ def _compare_reorder(r, label, data, rnd, perms, n_random, extra=_extra_observab
         fails = one(new, False, lazy)
         if lazy is not None:
             fails = [("(TTFont lazy=%r) %s" % (lazy, m), k) for m, k in fails]
-        if fails and "CFF2" in before:
-            # CFF2 only: the TopDict (and its name -> charstring index map) is built lazily from
-            # font.getGlyphOrder(); if that first happens after setGlyphOrder the charstrings keep
-            # their glyph IDs while the names move.  Failures that disappear when the TopDict is
-            # decompiled before the call are attributed to that.
-            still = {m for m, k in one(new, True)}
-            fails = [(m, k or (None if m in still else "C17-reorder-cff2-lazy-topdict")) for m, k in fails]
         for m, k in fails:
             r.fail("%s, order %s...: %s" % (label, new[:6], m), known_id=k)
     return len(shaped0)
@@ -860,8 +853,8 @@ def reorder_cff_font_dict_follows_name(tier, rnd):
     """CID-keyed CFF and CFF2 fonts whose FDArray has several font dicts: after reorderGlyphs +
     save every glyph NAME still selects a font dict with the same Private values (blues, stems,
     nominalWidthX/defaultWidthX, vsindex) and, for CFF, its charstring still encodes the same
-    advance (which agrees with hmtx).  For CFF2 the TopDict is decompiled before the call (see
-    C17-reorder-cff2-lazy-topdict in reorder_corpus_fonts_by_name)."""
+    advance (which agrees with hmtx).  For CFF2 the TopDict is decompiled before the call as
+    well as left lazy."""
     from fontTools.ttLib.reorderGlyphs import reorderGlyphs
 
     r = Result("CID corpus fonts + seeded multi-font-dict variants + CFF2 corpus fonts x permutations; distinct = (font, first glyphs of new order)")
@@ -876,11 +869,11 @@ def reorder_cff_font_dict_follows_name(tier, rnd):
             if bad:
                 r.fail("%s: charstring width differs from hmtx before any change: %r" % (label, bad[:3]))
                 continue
-        for new in _permutations(order, rnd, 3 if tier == "quick" else 8):
+        for k, new in enumerate(_permutations(order, rnd, 3 if tier == "quick" else 8)):
             r.case((label, tuple(new[1:4])))
             font = _open(data)
-            if tag == "CFF2":
-                font["CFF2"].cff.topDictIndex[0].CharStrings
+            if tag == "CFF2" and k % 2:
+                font["CFF2"].cff.topDictIndex[0].CharStrings          # top dict decompiled before the call for half of the cases, lazy for the rest
             reorderGlyphs(font, new)
             data1 = _save(font)
             after = _cff_by_name(data1, new)
@@ -890,12 +883,12 @@ def reorder_cff_font_dict_follows_name(tier, rnd):
                 if after[n][0] != before[n][0]:
                     diff = sorted(k for k in set(after[n][0]) | set(before[n][0]) if after[n][0].get(k) != before[n][0].get(k))
                     r.fail("%s, order %s...: glyph %s now uses a font dict whose Private differs in %s (FDSelect is indexed by glyph ID and was not permuted)" % (
-                        label, new[:5], n, diff), known_id="C17-reorder-fdselect-not-permuted")
+                        label, new[:5], n, diff), known_id=None)
                     break
             for n in order:
                 if tag == "CFF " and (after[n][1] != before[n][1] or after[n][1] != f1["hmtx"][n][0]):
                     r.fail("%s, order %s...: charstring of %s encodes advance %r (before %r, hmtx %r)" % (
-                        label, new[:5], n, after[n][1], before[n][1], f1["hmtx"][n][0]), known_id="C17-reorder-fdselect-not-permuted")
+                        label, new[:5], n, after[n][1], before[n][1], f1["hmtx"][n][0]), known_id=None)
                     break
     r.sample({"fonts": [c[0] for c in cases][:6]})
     return r
